@@ -236,6 +236,21 @@ func generate(rng *hx.Rng, thorough bool) []kase {
 	for _, body := range []string{"--b\r\nContent-Type: text/plain\r\n\r\nfirst part and then the message just ends\r\n", "--b\r\n\r\nx\r\n--b\r\nContent-Type: multipart/mixed; boundary=c\r\n\r\n--c\r\n\r\ninner never closed\r\n"} {
 		out = append(out, kase{kind: "imap", msg: "From: a@example.org\r\nTo: u@example.com\r\nSubject: truncated\r\nMIME-Version: 1.0\r\nContent-Type: multipart/mixed; boundary=b\r\n\r\n" + body, cmds: []string{"FETCH $N BODY[]", "FETCH $N BODYSTRUCTURE"}, class: "truncated-multipart"})
 	}
+	// containers without any part — at the top, nested, nested twice — and containers whose boundary never occurs in their body:
+	// every structure-building fetch item on each (these take the fall-back paths of the BODYSTRUCTURE builder)
+	for _, body := range []string{
+		"--b--\r\n",
+		"--b\r\nContent-Type: multipart/alternative; boundary=c\r\n\r\n--c--\r\n--b--\r\n",
+		"--b\r\nContent-Type: text/plain\r\n\r\ntext\r\n--b\r\nContent-Type: multipart/alternative; boundary=c\r\n\r\n--c--\r\n\r\n--b--\r\n",
+		"--b\r\nContent-Type: multipart/mixed; boundary=c\r\n\r\n--c\r\nContent-Type: multipart/related; boundary=d\r\n\r\n--d--\r\n--c--\r\n--b--\r\n",
+		"--b\r\nContent-Type: multipart/alternative; boundary=c\r\n\r\nthe boundary c never occurs here\r\n--b--\r\n",
+		"--b\r\nContent-Type: multipart/alternative; boundary=\"\"\r\n\r\nempty boundary\r\n--b--\r\n",
+		"--b\r\nContent-Type: multipart/alternative\r\n\r\nno boundary parameter\r\n--b--\r\n",
+		"--b\r\nContent-Type: message/rfc822\r\n\r\nContent-Type: multipart/mixed; boundary=e\r\n\r\n--e--\r\n--b--\r\n",
+	} {
+		out = append(out, kase{kind: "imap", msg: "From: a@example.org\r\nTo: u@example.com\r\nSubject: empty container\r\nMIME-Version: 1.0\r\nContent-Type: multipart/mixed; boundary=b\r\n\r\n" + body,
+			cmds: []string{"FETCH $N BODYSTRUCTURE", "FETCH $N BODY", "FETCH $N FULL", "FETCH $N (BODY[] BODY[1] BODY[2] BODY[1.1] BODY[2.1])", "SEARCH BODY text", "FETCH $N (ENVELOPE RFC822.SIZE)"}, class: "empty-container"})
+	}
 	out = append(out, kase{kind: "imap", msg: "From: a@example.org\r\nSubject: s\r\n\r\nranges\r\n", cmds: []string{"FETCH 50000000:1 FLAGS", "STORE 50000000:1 +FLAGS (\\Seen)", "COPY 50000000:1 INBOX", "UID FETCH 50000000:1 FLAGS", "FETCH 1:50000000 FLAGS"}, class: "huge-range"})
 	for _, a := range addrValues {
 		out = append(out, kase{kind: "imap", msg: "From: " + a + "\r\nSubject: s\r\n\r\nx\r\n", cmds: []string{"FETCH $N ENVELOPE"}, class: "odd-address"})
